@@ -275,7 +275,7 @@ func reflectOrigins(v ssa.Value) []ssa.Value {
 			}
 			return
 		case *ssa.Call:
-			if an.IsCallTo(t, rvElem, rvField, rvIndex, "(reflect.Value).Addr", "(reflect.Value).Slice", "(reflect.Value).Convert", "reflect.Indirect") {
+			if an.IsCallTo(t, rvElem, rvField, rvIndex, "(reflect.Value).Addr", "(reflect.Value).Slice", "(reflect.Value).Slice3", "(reflect.Value).Convert", "reflect.Indirect") {
 				visit(an.CallArgs(t)[0], depth+1)
 				return
 			}
